@@ -77,7 +77,101 @@ fn gen_cases(ctx: &mut Ctx) -> Vec<Value> {
             "now0": [now0_s, now0_n], "dt": [dt.0, dt.1], "expiry": expiry,
         }));
     }
+    // sequences of regular runs on one history (the server loop's successful arm)
+    let seqs = ctx.budget(150, 4000);
+    for i in 0..seqs {
+        let rng = &mut ctx.rng;
+        let refresh = match rng.below(4) { 0 => rng.below(5), 1 => rng.below(100), _ => rng.below(100_000) };
+        let min = match rng.below(4) {
+            0 => None,
+            1 => Some(refresh.saturating_sub(rng.below(3)) + rng.below(3)),
+            _ => Some(rng.below(refresh * 2 + 5)),
+        };
+        let span = refresh.max(min.unwrap_or(0)) + 3;
+        let t0_s = 1_000_000 + rng.below(4_000_000_000);
+        let t0_n = if rng.chance(1, 2) { 0 } else { rng.below(1_000_000_000) };
+        let len = 2 + rng.below(5);
+        let mut runs = Vec::new();
+        for _ in 0..len {
+            let dur = match rng.below(3) { 0 => 0, 1 => rng.below(2_000_000_000), _ => rng.below(span + 2) * 1_000_000_000 + rng.below(1_000_000_000) };
+            let lag = match rng.below(3) { 0 => 0, 1 => rng.below(1_000_000), _ => rng.below(3_000_000_000) };
+            // expiry offset in ns relative to the end of the run (may be in the past)
+            let off: Option<i64> = if rng.chance(1, 4) { None } else {
+                let secs = rng.below(span * 2) as i64 - (span as i64) / 2;
+                Some(secs * 1_000_000_000 + if rng.chance(3, 4) { 0 } else { rng.below(1_000_000_000) as i64 })
+            };
+            runs.push(json!([dur, lag, off]));
+        }
+        res.push(json!({
+            "refresh": refresh, "min_refresh": min, "cfg": if i % 2 == 0 { "cli" } else { "file" },
+            "t0": [t0_s, t0_n], "seq": runs,
+        }));
+    }
     res
+}
+
+/// A sequence of successful regular runs on one history: each next run starts when the
+/// wait obtained from `refresh_wait` has elapsed (`operation.rs`: `deadline = now + timeout`).
+fn run_seq(ctx: &mut Ctx, uni: &Universe, input: &Value, config: &routinator::config::Config,
+           refresh: u64, min: Option<u64>) {
+    let set_time = |t: u128| rvcore::clock::set((t / NS) as i64, (t % NS) as i64);
+    let t0 = ns(&input["t0"]);
+    set_time(t0.saturating_sub(30 * NS));
+    let history = SharedHistory::from_config(config);
+    history.mark_update_start();
+    history.update(ValidationReport::new(config), &LocalExceptions::empty(), Metrics::new());
+    history.mark_update_done();
+    let show = |x: Option<u128>| x.map(|x| x.to_string()).unwrap_or_else(|| "-".into());
+    let r = refresh as u128 * NS;
+    let lower = min.map(|m| m as u128 * NS).unwrap_or(r);
+    let upper = r.max(lower);
+    let mut op = format!("c34 seq {} {} {}", t0, r, show(min.map(|m| m as u128 * NS)));
+    let mut waits = Vec::new();
+    let mut starts = vec![t0];
+    let mut start = t0;
+    for run in input["seq"].as_array().cloned().unwrap_or_default() {
+        let dur = run[0].as_u64().unwrap_or(0) as u128;
+        let lag = run[1].as_u64().unwrap_or(0) as u128;
+        let fin = start + dur;
+        let expiry = run[2].as_i64().map(|off| (fin as i128 + off as i128).max(0) as u128);
+        set_time(start);
+        history.mark_update_start();
+        let time = expiry.map(|e| {
+            Time::new(DateTime::<Utc>::from_timestamp((e / NS) as i64, (e % NS) as u32).expect("timestamp"))
+        });
+        SharedHistory::verif_set_next_snapshot(Some(snapshot(uni, &AbsSet::default(), time)));
+        history.update(ValidationReport::new(config), &LocalExceptions::empty(), Metrics::new());
+        SharedHistory::verif_set_next_snapshot(None);
+        set_time(fin);
+        history.mark_update_done();
+        set_time(fin + lag);
+        let wait = history.read().refresh_wait().as_nanos();
+        op.push_str(&format!(" {} {} {}", dur, lag, show(expiry)));
+        let observed = json!({"run": waits.len(), "wait_ns": wait.to_string()});
+        if wait < lower {
+            ctx.oracle_fail("seq-wait-below-min-refresh",
+                "a wait in a run sequence is shorter than min-refresh (or refresh when unset)", input, observed.clone());
+        }
+        if wait > upper {
+            ctx.oracle_fail("seq-wait-above-max",
+                "a wait in a run sequence is longer than max(refresh, min-refresh)", input, observed.clone());
+        }
+        if let (Some(_), Some(e)) = (min, expiry) {
+            if e < fin + r && wait != e.saturating_sub(fin + lag).max(lower) {
+                ctx.oracle_fail("seq-early-expiry-not-honoured",
+                    "min-refresh set and the run's data set expires before its end + refresh, but the next \
+                     run is not at the expiry (bounded below by min-refresh)", input, observed.clone());
+            }
+        }
+        waits.push(wait);
+        start = fin + lag + wait;
+        starts.push(start);
+    }
+    let join = |v: &[u128]| v.iter().map(|x| x.to_string()).collect::<Vec<_>>().join(" ");
+    let imp = format!("{} | {}", join(&waits), join(&starts));
+    ctx.case(input, &op, &imp);
+    ctx.nontrivial(format!("seq/{}/{}", waits.len(), min.is_some()));
+    ctx.count("seq:runs");
 }
 
 fn ns(pair: &Value) -> u128 {
@@ -122,6 +216,11 @@ pub fn run_c34(ctx: &mut Ctx) {
         if config.refresh.as_secs() != refresh || config.min_refresh.map(|d| d.as_secs()) != min {
             ctx.oracle_fail("config-refresh", "parsed refresh/min-refresh differ from the option values",
                 &input, json!([config.refresh.as_secs(), config.min_refresh.map(|d| d.as_secs())]));
+        }
+
+        if input["seq"].is_array() {
+            run_seq(ctx, &uni, &input, &config, refresh, min);
+            continue
         }
 
         // A regular (non-initial) run: the history already has data.
